@@ -23,7 +23,7 @@ Section Iter.
 
   Lemma pi_new_R0 (q : str) : okstr q -> (exists r, q = SLASH :: r) -> piR0 (pi_new Windows (W q)) (pi_new Linux q).
   Proof.
-    intros Hq Hr. unfold piR0, pi_new. rewrite (vnl_W d Hd). cbn [pi_path pi_end pi_vnl volume_name_len].
+    intros Hq Hr. unfold piR0, pi_new. rewrite (vnl_W d). cbn [pi_path pi_end pi_vnl volume_name_len].
     repeat split; auto.
   Qed.
 
